@@ -124,10 +124,13 @@ func schemaCell(tp *kernel.Tape, proto int, spec cqlspec.ColSpec, row int) cqlsp
 		case 1:
 			open = "frozen<map<int, "
 			close = ">>"
+			if n > 100000 {
+				n = 100000 // (16 bytes per level: the deepest ones are drawn with the short openers)
+			}
 		case 2:
 			open, close, leaf = "org.apache.cassandra.db.marshal.ListType(", ")", "org.apache.cassandra.db.marshal.Int32Type"
-			if n > 1000000 {
-				n = 1000000
+			if n > 50000 {
+				n = 50000 // (42 bytes per level)
 			}
 		case 3:
 			open, close, leaf = "a(", ")", "b"
